@@ -61,6 +61,9 @@ def gen_index_oob(gs, w):
         idx[ax] = rng.choice([-1, -shape[ax] - 1, -7])
     else:
         idx[ax] = shape[ax] + rng.choice([0, 0, 1, 5])
+    if static_item and rng.random() < 0.2:
+        # more entries than the array has axes
+        idx = [rng.randrange(d) if d > 0 else 0 for d in shape] + [rng.choice([0, 0, 1, 99])]
     mode = "get"
     value = None
     if w.schema[ty["item"]]["k"] == "sc" and rng.random() < 0.6:
@@ -316,11 +319,13 @@ def run(step):
             feat = typegen.features(w.schema, o.t) + ">" + typegen.features(w.schema, t)
             start = o.handle() if op.get("via") == "handle" and o.hnd is not None else o.view()
             if kind == "index_oob":
-                if w.schema[t]["k"] != "array" or len(op["idx"]) != len(node.shape):
+                if w.schema[t]["k"] != "array" or len(op["idx"]) < len(node.shape):
                     raise Skip()
                 shape = node.shape
                 static_item = not typegen.is_dynamic(w.schema, w.schema[t]["item"])
-                oob = any(i >= d or (i < 0 and (static_item or i < -d)) for i, d in zip(op["idx"], shape))
+                oob = len(op["idx"]) > len(shape) or any(i >= d or (i < 0 and (static_item or i < -d)) for i, d in zip(op["idx"], shape))
+                if len(op["idx"]) > len(shape):
+                    res.probe("index_with_too_many_entries")
                 if not oob:
                     raise Skip()
                 arr = o.walk(path, start)
